@@ -125,6 +125,7 @@ def run(ctx):
     runner.prove(ctx, MODULE, THEOREMS, FILES)
     options_forwarded(ctx)
     wide_unions(ctx)
+    directed_unions(ctx)
     g = SchemaGen(ctx.rnd, max_depth=2)
     reqs, exp, info = [], [], []
 
@@ -161,6 +162,44 @@ def run(ctx):
         except Exception as e:  # noqa: BLE001
             ctx.violation("make_required raised %s, not DeclarationError" % type(e).__name__, schema=safe_repr(bad_schema), keys=safe_repr(bad_keys))
     _finish(ctx, reqs, exp, info)
+
+
+def directed_unions(ctx):
+    """every ordered pair and triple of a small operand universe — the universal schema (untyped any, alias of it, any(any)) on
+    either side, unions as operands, same-kind and cross-kind leaves — joined with `|` in both associations and with
+    schema.any(...), probed with a fixed value universe: the union accepts exactly what some operand accepts"""
+    import itertools
+    ops = [lambda: schema.any, lambda: schema.int, lambda: schema.str("x"), lambda: schema.none, lambda: schema.list(schema.int),
+           lambda: schema.dict({"k": schema.int}), lambda: schema.any(schema.int, schema.str), lambda: schema.alias("U", schema.any),
+           lambda: schema.any(schema.any), lambda: schema.int.min(5), lambda: schema.any(schema.none), lambda: schema.bool]
+    probes = [1, 7, True, "x", "y", None, [], [1], ["a"], {}, {"k": 1}, {"k": "s"}, 1.5, b"b", ...]
+    built = []
+    for mk in ops:
+        try:
+            built.append(mk)
+            mk()
+        except Exception:  # noqa: BLE001
+            built.pop()
+    for mks in itertools.chain(itertools.permutations(built, 2), ctx.rnd.sample(list(itertools.permutations(built, 3)), ctx.n(150, 600))):
+        xs = [mk() for mk in mks]
+        forms = []
+        try:
+            if len(xs) == 2:
+                forms = [("a | b", xs[0] | xs[1]), ("schema.any(a, b)", schema.any(xs[0], xs[1]))]
+            else:
+                forms = [("(a | b) | c", (xs[0] | xs[1]) | xs[2]), ("a | (b | c)", xs[0] | (xs[1] | xs[2])),
+                         ("schema.any(a | b, c)", schema.any(xs[0] | xs[1], xs[2]))]
+        except Exception as e:  # noqa: BLE001
+            ctx.violation("a combinator check raised " + type(e).__name__, operands=[safe_repr(x) for x in xs])
+            continue
+        ctx.count("directed_union_forms", len(forms))
+        for v in probes:
+            want = any(ok(x, v) for x in xs)
+            for name, u in forms:
+                if ok(u, v) != want:
+                    ctx.violation("a | b does not accept exactly the union", form=name, operands=[safe_repr(x) for x in xs],
+                                  value=safe_repr(v), union=safe_repr(u))
+                    return
 
 
 def _one(ctx, g, corr):
